@@ -11,9 +11,11 @@ func TestMain(m *testing.M) { vkit.Main(m) }
 func TestProp_History(t *testing.T)  { PartHistory.Run(t) }
 func TestProp_Alphabet(t *testing.T) { PartAlphabet.Run(t) }
 func TestProp_Nonce(t *testing.T)    { PartNonce.Run(t) }
+func TestProp_Long(t *testing.T)     { PartLong.Run(t) }
 
 func TestReplay(t *testing.T) {
 	PartHistory.Replay(t, 1)
 	PartAlphabet.Replay(t, 1)
 	PartNonce.Replay(t, 1)
+	PartLong.Replay(t, 1)
 }
